@@ -175,13 +175,15 @@ def disconnectStep (t : Th) (s : Sh) : Option (Label × Th × Sh) :=
 /-- `BaseMySensorsProtocol.connection_made(c1)`:
       super().connection_made(transport)  → self.transport = transport      0: W pt
       if hasattr(self.transport, "serial"):                                 1: R pt
-          _LOGGER.info(..., self.transport.serial)                          2: R pt
+          _LOGGER.info(..., self.transport.serial)                          2: R pt (None → AttributeError)
+      else: _LOGGER.info(..., self.transport)                               2: R pt
       self._connection_made()                                               3: onMade    -/
 def connMadeStep (guarded : Bool) (t : Th) (s : Sh) : Option (Label × Th × Sh) :=
   match t.pc with
   | 0 => if guarded && s.reconn == 0 then none else some (.wPt, t.goto 1, { s with pt := some .c1 })
-  | 1 => some (.rPt, t.goto (if s.pt.isSome then 2 else 3), s)   -- hasattr(None, "serial") is False
-  | 2 => some (.rPt, if s.pt.isSome then t.goto 3 else t.fin .raisedAttr, s)
+  | 1 => some (.rPt, { t with pc := 2, lt := s.pt }, s)          -- hasattr(None, "serial") is False
+  | 2 =>                                                          -- both branches read it again
+    some (.rPt, if t.lt.isSome && s.pt.isNone then t.fin .raisedAttr else t.goto 3, s)
   | 3 => some (.onMade, t.fin .returned, { s with onMade := s.onMade + 1 })
   | _ => none
 
